@@ -73,6 +73,14 @@ fn wide_table(t: &mut Tape, name: &str, prefix: &str, ncols: usize) -> DataTable
         };
         cols.push((format!("{}{}", prefix, i), ty));
     }
+    if ncols >= 4 && t.chance(1, 25) {
+        // a column name defined twice (the later definition is the one a name refers to)
+        let from = 2 + t.draw(ncols - 2);
+        let to = 2 + t.draw(ncols - 2);
+        if from != to {
+            cols[to].0 = cols[from].0.clone();
+        }
+    }
     DataTable { name: name.to_string(), json: t.chance(2, 3), cols, not_null: None }
 }
 
@@ -112,7 +120,7 @@ impl Property for C18 {
 
     fn rule(&self) -> String {
         "statements that push many items through every hash container on the output path: `*` over 8-12 columns, GROUP BY (COUNT / SUM / MIN / MAX / COUNT(DISTINCT) over any column incl. REALs with both zeros / ARRAY_AGG / array_unique(ARRAY_AGG) over nullable columns) with up to 30 groups (a third of them: up to 120 groups over 150-300 lines) and 4-6 aggregates, optional LIMIT / DISTINCT, groups must also come out in ascending key order, joins with 6-10 partners per key and `*` over both tables, \
-         HAVING with hidden aggregates; definitions with 0-6 extra unrelated tables in different positions, among them tables whose name differs from a used one only in letter case. Oracle: byte equality of the captured output (text and JSON) across 8 in-process repetitions (every HashMap gets a fresh \
+         HAVING with hidden aggregates; one case in 250: PERCENTILE / COUNT(DISTINCT) over a single group of 10 000 - 16 000 spread-out values; now and then a column name defined twice; definitions with 0-6 extra unrelated tables in different positions, among them tables whose name differs from a used one only in letter case. Oracle: byte equality of the captured output (text and JSON) across 8 in-process repetitions (every HashMap gets a fresh \
          RandomState), the variants with extra tables added / reordered, and (a slice of cases) 4 fresh child processes. Non-trivial: output with >= 6 rows or >= 6 columns; distinct by case."
             .to_string()
     }
@@ -145,7 +153,24 @@ impl Property for C18 {
         let mut joined_lines = Vec::new();
         let mut q = Select::simple(Vec::new(), "t");
         let lines;
-        match t.weighted(&[3, 4, 3]) {
+        let mode = if t.chance(1, 250) { 3 } else { t.weighted(&[3, 4, 3]) };
+        match mode {
+            3 => {
+                // one group with well over ten thousand spread-out values (sampling / approximate aggregates would show here)
+                let n = 10_500 + t.draw(6_000);
+                let step = 1 + 2 * t.draw(500) as i64;
+                let modulus = 50_000 + t.draw(50_000) as i64;
+                lines = (0..n as i64)
+                    .map(|i| {
+                        let values: Vec<V> = table.cols.iter().enumerate().map(|(c, (_, ty))| if c == 0 { V::Int((i * step) % modulus) } else if c == 1 { V::Text("g".into()) } else if *ty == Ty::Int { V::Int(i % 7) } else { V::Null }).collect();
+                        table.line(&values, t)
+                    })
+                    .collect();
+                q.items.push((E::Agg("PERCENTILE".into(), false, vec![E::col("c0"), E::Real("0.5".into())]), Some("median".into())));
+                q.items.push((E::Agg("PERCENTILE".into(), false, vec![E::col("c0"), E::Real(format!("0.{}", 1 + t.draw(98)))]), Some("p".into())));
+                q.items.push((E::Agg("COUNT".into(), true, vec![E::col("c0")]), Some("d".into())));
+                q.items.push((E::Agg("COUNT".into(), false, vec![E::Star]), Some("n".into())));
+            }
             0 => {
                 // `*` over many columns
                 let n = 6 + t.draw(10);
